@@ -629,6 +629,10 @@ func (c *Client) proposalParent(prop ChannelProposal, partIdx channel.Index) (pa
 	case *SubChannelProposalMsg:
 		parentChannelID = &prop.Parent
 	case *VirtualChannelProposalMsg:
+		if int(partIdx) >= len(prop.Parents) {
+			err = errors.Errorf("virtual channel proposal has %d parents, need index %d", len(prop.Parents), partIdx)
+			return
+		}
 		parentChannelID = &prop.Parents[partIdx]
 	}
 
